@@ -342,6 +342,13 @@ class Acceptor(object):
             self.classify_missing("hook %s %s %s" % (name, eid, tag), "hook", name, hint)
         return None
 
+    def paired_tags(self, tags, before_ran):
+        """after_tag hooks pair with the before_tag hooks that ran (strict nesting); when no
+        before_tag hook is defined every own tag gets its after_tag."""
+        if "before_tag" in self.hooks and not self.dry:
+            return list(before_ran)
+        return list(tags)
+
     def take_after_tags(self, eid, tags, mode="must"):
         """after_tag hooks: one per own tag; any order accepted."""
         if self.p.dead or "after_tag" not in self.hooks or self.dry:
@@ -562,9 +569,11 @@ class Acceptor(object):
             m = mode
             started = False
             hook_raised = False
+            btags = []
             for t in c["tags"]:
                 ev = self.take_hook("before_tag", eid, t, "may" if hook_raised else m)
                 if ev is not None:
+                    btags.append(t)
                     started = True
                     m = "must"
                     if ev.get("raised"):
@@ -618,7 +627,7 @@ class Acceptor(object):
                 rec["hook_failed"] = True
                 rec.setdefault("failed_hook", ("after_" + kind, ""))
                 failed = True
-            for ev in self.take_after_tags(eid, c["tags"], "must"):
+            for ev in self.take_after_tags(eid, self.paired_tags(c["tags"], btags), "must"):
                 if ev.get("raised"):
                     rec["hook_failed"] = True
                     rec.setdefault("failed_hook", ("after_tag", ev["tag"]))
@@ -721,9 +730,11 @@ class Acceptor(object):
         hook_raised = False
         skipped_by_hook = False
         tags = scenario_own_tags(sc)
+        btags = []
         for t in tags:
             ev = self.take_hook("before_tag", sid, t, "may" if hook_raised else "must")
             if ev is not None:
+                btags.append(t)
                 if ev.get("raised"):
                     hook_raised = True
                     rec["failed_hook"] = ("before_tag", t)
@@ -758,7 +769,7 @@ class Acceptor(object):
             rec["hook_failed"] = True
             rec.setdefault("failed_hook", ("after_scenario", ""))
             failed = True
-        for ev in self.take_after_tags(sid, tags, "must"):
+        for ev in self.take_after_tags(sid, self.paired_tags(tags, btags), "must"):
             if ev.get("raised"):
                 rec["hook_failed"] = True
                 rec.setdefault("failed_hook", ("after_tag", ev["tag"]))
@@ -854,7 +865,12 @@ class Acceptor(object):
                 e["why"] = "converter-error"
             else:
                 r = sev.get("raised")
-                if r is None:
+                if r is None and sev.get("async") and not sev.get("completed"):
+                    # the coroutine never ran to its end (timed out / cancelled): the step function
+                    # did NOT return, so the step must not be reported as passed
+                    allowed, nonpass = {"failed", "error"}, True
+                    e["why"] = "async-incomplete"
+                elif r is None:
                     if _did_direct(sev, "skip_scenario"):
                         allowed, nonpass = {"skipped"}, False
                         skip_rest = True
